@@ -341,17 +341,18 @@ def history_of_line(trace, lineno):
 
 def extract_history(ipath, hid):
     """P lines + the block of history hid from an input file"""
-    out, keep = [], False
+    pl, out, keep = [], [], False
     for ln in open(ipath):
         if ln.startswith("P "):
-            out.append(ln)
+            pl.append(ln)
         elif ln.startswith("H "):
             keep = int(ln.split()[1]) == hid
             if keep:
                 out.append(ln)
         elif keep:
             out.append(ln)
-    return "".join(out)
+    used = set(ln.split()[2] for ln in out if ln.startswith("D "))
+    return "".join([ln for ln in pl if ln.split()[1] in used] + out)
 
 
 # F3 (DESIGN section 8): provisional known-finding entry until the coordinator moves it into known_findings.json
